@@ -3,9 +3,9 @@ from ..rules import delivery, flow
 from .common import declare
 
 RULES = ['SINGLE-CONSUMER', 'SERIAL-DRAIN', 'FIFO-END', 'SWAP-ATOMIC', 'ATOMIC-RMW', 'AWAITABLE-SHARE', 'EMIT-SIG', 'BOUND-PLUMB', 'NOTIFY-ON-FREE', 'ARM-CANCEL',
-         'APPEND-THEN-TEST', 'ARM-ON-FIRST', 'AWAITABLE-RESULT', 'PROPAGATE', 'EAGER-UPDATE']
+         'APPEND-THEN-TEST', 'ARM-ON-FIRST', 'AWAITABLE-RESULT', 'PROPAGATE', 'EAGER-UPDATE', 'CANCEL-ONLY-TIMERS']
 FLOORS = {'SINGLE-CONSUMER': 4, 'SERIAL-DRAIN': 6, 'FIFO-END': 10, 'SWAP-ATOMIC': 6, 'ATOMIC-RMW': 1, 'AWAITABLE-SHARE': 1,
-          'EMIT-SIG': 30}
+          'EMIT-SIG': 30, 'CANCEL-ONLY-TIMERS': 1}
 
 META = {
     'level': "Static analysis of the cooperative-scheduling discipline of every asynchronous node: one consumer coroutine per "
@@ -41,3 +41,5 @@ def run(ctx, R):
     R.run(delivery.check_eager_update, ctx, R, [c for c in core if c.module.name == 'streamz.core'])
     # an emission whose awaitables are neither awaited nor handed back is never run for a native-coroutine consumer
     R.run(flow.check_propagate, ctx, R, modules=('streamz.core', 'streamz.sinks'), note_modules=())
+    R.run(delivery.check_cancel_only_timers, ctx, R)
+META['level'] += ' CANCEL-ONLY-TIMERS: cancel() is applied to stored timer handles only, never to a task or future that is carrying an element.'
